@@ -662,7 +662,14 @@ def run_single(ctx, c, mline_out):
             tol = 0.0
             reader = "peer"
         rec.update(sources=sources, tol=tol, reader=reader, line=line)
-        im = call_read(arg, c["deg"], wrap=c.get("wrap", False))
+        # reader options handed over by the caller WITHOUT a format entry (an empty dict, or one holding a neutral obspy option): the file is read exactly as
+        # without options, for every format (the trial dispatch passes the same options to one reader after the other), and the caller's dict is left as it was
+        opt = [None, None, {}, {"headonly": False}][(len(line or "") + len(sources[0])) % 4]
+        opt_before = None if opt is None else dict(opt)
+        im = call_read(arg, c["deg"], wrap=c.get("wrap", False), kwargs=opt)
+        rec["reader_options"] = opt_before
+        if opt is not None and opt != opt_before:
+            rec["options_mutated"] = dict(opt)
         rec["impl_status"] = im[0]
         if im[0] == "ok":
             rec["impl"] = rec_summary(im[1], sources, tol)
@@ -734,6 +741,12 @@ def check_single(ctx, rec, outs):
     if c.get("nl"):
         ctx.count("newline:" + c["nl"])
     ctx.count("deg:" + ("none" if c["deg"] is None else type(c["deg"]).__name__))
+    ctx.count("reader_options:" + ("none" if rec.get("reader_options") is None else ("empty-dict" if not rec["reader_options"] else "neutral-option")))
+    replay["reader_options"] = rec.get("reader_options")
+    if "options_mutated" in rec:
+        # observed on the unchanged tree: the SAC trial writes its byte-order guess into the caller's dict. The property speaks about what each recording is READ
+        # with, not about the caller's dict, so this is counted, not judged (a first version of this check raised a false alarm here)
+        ctx.count("reader_options:dict-modified-by-the-call")
 
     # ---------------- oracle: the property sentence evaluated on the implementation
     if st == "bad":
